@@ -371,7 +371,34 @@ func runSHAREDPUB(c *Ctx) {
 				}
 			}
 		}
-		if ir.MustPass(where, S.marks(x)) {
+		// the node is a parameter of a private helper that is only ever called (`m.cacheNode(key, node)`):
+		// it is flagged before each of the helper's calls, on the argument handed in (depth ≤ 2)
+		var atCallers func(h *ssa.Function, use ssa.Instruction, v ssa.Value, d int) bool
+		atCallers = func(h *ssa.Function, use ssa.Instruction, v ssa.Value, d int) bool {
+			par, isPar := ir.Strip(ir.ResolveCell(v)).(*ssa.Parameter)
+			if !isPar || par.Parent() != h || d >= 2 {
+				return false
+			}
+			idx := -1
+			for i, q := range h.Params {
+				if q == par {
+					idx = i
+				}
+			}
+			if idx < 0 {
+				return false
+			}
+			held, _ := viaCallers(c, h, use, nil, func(_ func(string) string, site ssa.Instruction) bool {
+				call, isCall := site.(*ssa.Call)
+				if !isCall || idx >= len(call.Call.Args) {
+					return false
+				}
+				arg := ir.Strip(call.Call.Args[idx])
+				return ir.MustPass(site, S.marks(arg)) || atCallers(site.Parent(), site, arg, d+1)
+			})
+			return held
+		}
+		if ir.MustPass(where, S.marks(x)) || (where == at && atCallers(fn, at, x, 0)) {
 			c.OK(pos, what, "shared=true is stored on the node on every path before it is published", false)
 		} else {
 			c.Violation(fn, pos, "node published without shared=true",
